@@ -37,11 +37,38 @@ func runC16(r *Run) {
 			} else if got := o[strings.Index(o[2:], " ")+3:]; got != want {
 				r.Violate("round-trip-tree", "tree|"+shapeKey(t), c, "parsed back as "+truncate(got, 300))
 			}
+			// the public constructor must accept every rendering too (it is how a rendering is normally parsed back)
+			if ev, err := bexpr.CreateEvaluator(txt); err != nil {
+				r.Violate("rendering-rejected-by-CreateEvaluator", "cev|"+shapeKey(t), c, err.Error())
+			} else {
+				var p1 []string
+				if got := sExpr(ev.VerifAST(), &p1); got != want {
+					r.Violate("round-trip-tree", "cevtree|"+shapeKey(t), c, "CreateEvaluator holds "+truncate(got, 300))
+				}
+			}
 			r.Model(parseCmd("go", 0, txt), o, c)
 			if i%500 == 0 && k == 0 {
 				r.Sample(map[string]string{"text": txt, "tree": truncate(want, 200)})
 			}
 		}
+	}
+	// deep parenthesis nesting (redundant and precedence-overriding), through both entry points
+	for _, txt := range []string{"(((((foo == 3)))))", "((((((foo == 3))))))", "(((a == 1)) and ((b == 2))) or (not (((c == 9))))",
+		"a == 1 and (b == 2 or (c == 9 and (d == 4 or (e == 5 and f == 6))))", "not (not (not (not (a == 1))))", "((((a == 1 or b == 2)) and c == 3))", "(((((((foo == 3)))))))"} {
+		o := parseObs([]byte(txt), 0)
+		r.Evaluations++
+		r.Seen("deep|" + txt)
+		c := map[string]interface{}{"text": txt}
+		if !strings.HasPrefix(o, "A ") {
+			r.Violate("rendering-rejected", "deep|"+txt, c, o)
+		}
+		if _, err := bexpr.CreateEvaluator(txt); err != nil {
+			r.Violate("rendering-rejected-by-CreateEvaluator", "deepcev|"+txt, c, err.Error())
+		}
+		if _, err := bexpr.CreateFilter(txt); err != nil {
+			r.Violate("rendering-rejected-by-CreateFilter", "deepflt|"+txt, c, err.Error())
+		}
+		r.Model(parseCmd("go", 0, txt), o, c)
 	}
 	// literal texts with a prescribed denotation: strconv.Unquote (the Go string the literal spells) is the oracle
 	for _, lit := range []string{"`a\rb`", "`a\r\nb`", "`\r`", "`\\n`", "`a\\`", "\"a\nb\"", "\"a\tb\"", `"\u00e9"`, `"\U0001F600"`, `"\x41\101"`, `"\a\b\f\v"`, `"a\\b"`, `"\'"`, `"'"`, "`'\"`", `"\ud800"`, `"\400"`, `"\x4"`, "\"\xff\"", "`\xff`", `""`, "``", `"/"`, `"/a/b"`, `"//"`, "`/x`"} {
@@ -327,6 +354,28 @@ func runC17(r *Run) {
 			}
 		}
 	}
+	// long inputs: kept elements at every residue of the index modulo 64 (word-sized bookkeeping must not lose any)
+	{
+		long := make([]S1, 150)
+		var arr [130]map[string]interface{}
+		for i := range long {
+			long[i] = S1{A: i % 3, B: fmt.Sprint(i)}
+		}
+		for i := range arr {
+			arr[i] = map[string]interface{}{"A": i % 3}
+		}
+		for _, d := range []interface{}{long, arr, long[:33], long[:65]} {
+			for _, e := range []string{"A == 0", "A != 0", "A == 1 or A == 2"} {
+				o, res := executeObs(e, d)
+				r.Evaluations++
+				r.Seen("long|" + e + "|" + fmt.Sprint(reflect.ValueOf(d).Len()))
+				c := map[string]interface{}{"expression": e, "container": fmt.Sprintf("%T of %d elements", d, reflect.ValueOf(d).Len())}
+				checkFilterCoherence(r, e, "long", d, res, o, c)
+				var pats []string
+				r.Model(fmt.Sprintf("(execute %s () %s %s)", hx(e), sIface(d), reTable(pats, d)), o, c)
+			}
+		}
+	}
 	// histories on ONE filter: containers of different types in sequence (arrays of two element types included);
 	// every result must equal that of a freshly created filter
 	for _, e := range []string{"A == 1", "B == a", `"" == 1`, "A != 2", "zz == 1"} {
@@ -521,6 +570,8 @@ func runC18(r *Run) {
 		{"l.0 == 1 and l.1 == 2", map[string]interface{}{"l": []int{1, 2}}}, {"x is empty", map[string]interface{}{"x": ""}}, {"s matches `^a`", map[string]interface{}{"s": "abc"}},
 		{"(((a == 1)))", map[string]interface{}{"a": 1}}, {"X.A == 1 or X.bee == q", S2{X: S1{A: 1}}},
 		{"W.m.zz != 1", S7{W: Wrap{map[string]interface{}{"m": map[string]interface{}{"k": 1}}}}}, {"lab.zz != x", S7{Labels: map[string]string{"a": "b"}}}, {"labels.zz is empty", S7{Labels: map[string]string{"a": "b"}}},
+		{"any L as t { t == BLUE }", S1{L: []string{"red", "blue"}}}, {"L.1 == BLUE", S1{L: []string{"red", "blue"}}}, {"all L as i, t { t != blue }", S1{L: []string{"red", "blue"}}}, {"BLUE in L", S1{L: []string{"red", "blue"}}}, {"B == AB", S1{B: "ab"}}, {"any Arr2 as s { s == X }", struct{ Arr2 [2]string }{[2]string{"x", "y"}}},
+		{`"/` + strings.Repeat("\U00020000", 400) + `" == 1 and b == 2 or c == 3`, map[string]interface{}{strings.Repeat("\U00020000", 400): 1, "b": 2, "c": 3}},
 		{"owner == nobody", map[string]interface{}{"owner": nil}}, {"any tags as t { t == a }", map[string]interface{}{"tags": []interface{}{"blue", nil}}}, {"I == a", S1{I: nil}}, {"P == 1", S1{}},
 	}
 	n := len(pairs)
@@ -530,9 +581,9 @@ func runC18(r *Run) {
 		unk    interface{}
 		budget uint64
 	}
-	settings := []setting{{"bexpr", 1, 1, 0}, {"alt", 2, "a", 1000000}, {"alt", 3, nil, 0}, {"bexpr", 2, nil, 5}, {"alt", 4, 1, 1000000}}
+	settings := []setting{{"bexpr", 1, 1, 0}, {"alt", 2, "a", 1000000}, {"bexpr", 5, nil, 0}, {"alt", 3, nil, 0}, {"bexpr", 2, nil, 5}, {"alt", 4, 1, 1000000}}
 	if r.Tier == "quick" {
-		settings = settings[:3]
+		settings = settings[:4]
 	}
 	mk := func(s setting) []optSpec {
 		return []optSpec{
@@ -587,7 +638,7 @@ func runC18(r *Run) {
 				}
 			}
 			// last of repeated options wins
-			other := mk(setting{tag: map[string]string{"bexpr": "alt", "alt": "bexpr"}[st.tag], hook: 1 + st.hook%4, unk: "other", budget: 0})
+			other := mk(setting{tag: map[string]string{"bexpr": "alt", "alt": "bexpr"}[st.tag], hook: 1 + st.hook%5, unk: "other", budget: 0})
 			for k := 0; k < 4; k++ {
 				a := evalWith(p.e, p.d, []optSpec{other[k], all[k]})
 				b := evalWith(p.e, p.d, []optSpec{all[k]})
@@ -635,6 +686,7 @@ func runC18(r *Run) {
 	}{
 		{"W == 1", S6{W: Wrap{1}}, 2, "T"}, {"W == 1", S6{W: Wrap{1}}, 0, "E"}, {"W is empty", S6{W: Wrap{""}}, 2, "T"}, {"1 in W", S6{W: Wrap{[]int{1}}}, 2, "T"},
 		{"A == 7", S6{A: 3}, 3, "T"}, {"A == 3", S6{A: 3}, 3, "F"}, {"A == 3", S6{A: 3}, 4, "E"}, {"any WL as w { w == 1 }", S6{WL: []Wrap{{2}, {1}}}, 2, "T"},
+		{"any L as t { t == BLUE }", S1{L: []string{"red", "blue"}}, 5, "T"}, {"any L as t { t == blue }", S1{L: []string{"red", "blue"}}, 5, "F"}, {"all L as _, t { t matches `^[A-Z]+$` }", S1{L: []string{"red", "blue"}}, 5, "T"}, {"BLUE in L", S1{L: []string{"red", "blue"}}, 0, "F"},
 	} {
 		c := evalCase{expr: t.e, d: t.d, tag: "bexpr", hook: t.hook}
 		if !c.parse() {
@@ -666,6 +718,11 @@ func runC13(r *Run) {
 		if rng.Pct(30) {
 			e = pick(rng, []string{"B matches `^a`", "B not matches `b+`", "any L as x { x matches `o$` }", "X.B matches `[`", "bee matches `a` or A == 1"})
 		}
+		clash := rng.Pct(25)
+		if clash { // a binder named like a top-level field that is also used outside the braces; bodies that error on some data
+			e = pick(rng, []string{"Tag == stable or any Tags as Tag { Tag matches `^rc` }", "any Tags as Tag { Tag matches `^rc` } or Tag == stable", "all Tags as i, Tag { Tag != 1 } and Tag == stable",
+				"Tag == stable or all M as Tag, v { v == 1 and Tag != zz }", "any Tags as Tag { Tag == x } or Tag is empty"})
+		}
 		base := evalCase{expr: e, tag: "bexpr"}
 		genOptions(&base)
 		if !base.parse() {
@@ -685,6 +742,9 @@ func runC13(r *Run) {
 			d := d0
 			if k > 0 && rng.Pct(70) {
 				d = genDatum()
+			}
+			if clash {
+				d = map[string]interface{}{"Tag": pick(rng, []interface{}{"stable", "x", "", 1}), "Tags": pick(rng, []interface{}{[]interface{}{"beta", "x"}, []interface{}{1, "rc1"}, []interface{}{"rc2"}, []interface{}{}, 5}), "M": map[string]interface{}{"a": 1, "b": pick(rng, []interface{}{1, "x"})}}
 			}
 			before := sIface(d)
 			o := evalObs(ev, d)
@@ -725,6 +785,7 @@ func runC13(r *Run) {
 		if err != nil {
 			continue
 		}
+		arrays := []interface{}{[2]interface{}{S1{A: 1}, 1}, [3]S1{{A: 1}, {A: 2}, {A: 1}}, [2]map[string]interface{}{{"A": 1}, {"A": 2}}, [1]S2{}, map[string]S1{"k": {A: 1}}}
 		for k := 0; k < hist; k++ {
 			t := structTypes[0]
 			sz := rng.Intn(4)
@@ -733,10 +794,13 @@ func runC13(r *Run) {
 				lst.Index(j).Set(genValue(t, 2))
 			}
 			d := lst.Interface()
+			if k%2 == 1 {
+				d = arrays[(k/2)%len(arrays)]
+			}
 			before := sIface(d)
-			k1 := filterKept(f, d)
+			k1 := filterKept(f, d) + " " + executeWith(f, d)
 			fresh, _ := bexpr.CreateFilter(e)
-			k2 := filterKept(fresh, d)
+			k2 := filterKept(fresh, d) + " " + executeWith(fresh, d)
 			r.Evaluations++
 			if k1 != k2 {
 				r.Violate("filter-history-dependent", e, map[string]interface{}{"expression": e, "datum": describe(d)}, k1+" vs fresh "+k2)
